@@ -313,6 +313,7 @@ PROPS["C03"] = {
         {"test": "^TestC03Windows$", "quick": {"checks": 300, "shards": 8}, "thorough": {"checks": 25000, "shards": 8, "timeout": 7200}},
         {"test": "^TestC03BigSet$", "quick": {"checks": 100, "shards": 4}, "thorough": {"checks": 3000, "shards": 8}},
         {"test": "^TestC03Enum$", "norapid": True, "quick": {"shards": 16}, "thorough": {"shards": 16, "timeout": 7200}},
+        {"test": "^TestC03RenameCycle$", "norapid": True, "quick": {"shards": 4}, "thorough": {"shards": 4}},
     ],
 }
 
